@@ -247,7 +247,9 @@ def _read(rowio, source, widths, setting, via="rowio"):
         # content, so the rows are those of fixed_rows and a malformed stream ends in the same DataFormatError
         from cutplace import validio
 
-        cid_rows = [["d", "format", "fixed"], ["d", "encoding", "utf-8"], ["d", "line delimiter", setting]]
+        # property values are case-insensitive: LF, Crlf, ANY
+        spelled = {0: setting, 1: setting.upper(), 2: setting.title()}[len(widths) % 3]
+        cid_rows = [["d", "format", "fixed"], ["d", "encoding", "utf-8"], ["d", "line delimiter", spelled]]
         cid_rows += [["f", "f%d" % index, "", "X", str(width), "Text", ""] for index, width in enumerate(widths)]
         cid = lib.load_cid(cid_rows)
         return lib.call(lambda: lib.collect_rows(validio.rows(cid, source)))
